@@ -134,6 +134,13 @@ pub fn sinks(case: &mut Case, full: bool) -> Vec<Sink> {
     v
 }
 
+pub fn singles(ops: Vec<Op>) -> Vec<Vec<Op>> {
+    ops.into_iter().map(|o| vec![o]).collect()
+}
+pub fn elem_seqs(case: &mut Case, n: usize, full: bool) -> Vec<Vec<Op>> {
+    singles(elem_ops(case, n, full))
+}
+
 /// All element-wise operation instances on vector 0 in a state of length `n`.
 pub fn elem_ops(case: &mut Case, n: usize, full: bool) -> Vec<Op> {
     let cl = case.cfg.cloneable;
@@ -207,7 +214,7 @@ pub fn exhaustive(
     cfgs: &[CfgEntry],
     l: usize,
     thresholds: bool,
-    gen: &dyn Fn(&mut Case, usize, bool) -> Vec<Op>,
+    gen: &dyn Fn(&mut Case, usize, bool) -> Vec<Vec<Op>>,
 ) {
     ctx.begin_family(family);
     let full = ctx.thorough();
@@ -229,17 +236,27 @@ pub fn exhaustive(
                     scratch.finish(ctx);
                     ops
                 };
-                for op in ops.iter() {
+                for seq in ops.iter() {
                     if !ctx.take(cfg) {
                         continue;
                     }
                     let mut case = arrange(ctx, cfg, st);
                     case.desc = format!("{}|{}|#{}", cfg.name, st.label(), ctx.ordinal - 1);
-                    let (_out, exp) = case.step(ctx, op);
-                    let desc = format!("{} | {op}", case.desc);
-                    let nontrivial = exp.nontrivial;
+                    let mut nontrivial = false;
+                    let mut skipped = false;
+                    for op in seq {
+                        let (out, exp) = case.step(ctx, op);
+                        nontrivial |= exp.nontrivial;
+                        if out.unsupported {
+                            skipped = true;
+                            break;
+                        }
+                    }
+                    let desc = format!("{} | {}", case.desc, seq.iter().map(|o| o.to_string()).collect::<Vec<_>>().join("; "));
                     case.finish(ctx);
-                    record(ctx, cfg, &st.label(), std::slice::from_ref(op), nontrivial, &desc);
+                    if !skipped {
+                        record(ctx, cfg, &st.label(), seq, nontrivial, &desc);
+                    }
                 }
             }
         }
@@ -518,4 +535,376 @@ pub fn histories(ctx: &mut Ctx, family: &str, cfgs: &[CfgEntry], p: &HistParams)
             record(ctx, cfg, "history", &ops_done, nontrivial, &desc);
         }
     }
+}
+
+// ---------------------------------------------------------------------------------------------
+// range operations (drain / splice)
+
+/// Every `(lo, hi)` bound pair that denotes `a..b` on a vector of length `n`.
+pub fn bound_forms(a: usize, b: usize, n: usize) -> Vec<(Bound<usize>, Bound<usize>)> {
+    let mut los = vec![Bound::Included(a)];
+    if a > 0 {
+        los.push(Bound::Excluded(a - 1));
+    } else {
+        los.push(Bound::Unbounded);
+    }
+    let mut his = vec![Bound::Excluded(b)];
+    if b > 0 {
+        his.push(Bound::Included(b - 1));
+    }
+    if b == n {
+        his.push(Bound::Unbounded);
+    }
+    let mut v = Vec::new();
+    for l in &los {
+        for h in &his {
+            v.push((*l, *h));
+        }
+    }
+    v
+}
+
+/// Ranges that must be rejected on a vector of length `n`.
+pub fn invalid_ranges(n: usize) -> Vec<(Bound<usize>, Bound<usize>)> {
+    let m = usize::MAX;
+    let mut v = vec![
+        (Bound::Unbounded, Bound::Excluded(n + 1)),
+        (Bound::Unbounded, Bound::Included(n)),
+        (Bound::Included(n + 1), Bound::Unbounded),
+        (Bound::Excluded(n), Bound::Unbounded),
+        (Bound::Included(n + 1), Bound::Excluded(n + 1)),
+        (Bound::Included(0), Bound::Included(m)),
+        (Bound::Unbounded, Bound::Included(m)),
+        (Bound::Unbounded, Bound::Excluded(m)),
+        (Bound::Excluded(m), Bound::Unbounded),
+        (Bound::Included(m), Bound::Unbounded),
+        (Bound::Excluded(m), Bound::Included(m)),
+        (Bound::Included(m), Bound::Included(m)),
+        (Bound::Excluded(m - 1), Bound::Excluded(m)),
+    ];
+    if n >= 1 {
+        v.push((Bound::Included(1), Bound::Excluded(0)));
+        v.push((Bound::Included(n), Bound::Excluded(n - 1)));
+        v.push((Bound::Excluded(n - 1), Bound::Excluded(n - 1)));
+        v.push((Bound::Excluded(0), Bound::Included(0)).clone());
+    }
+    // the last one (Excluded(0), Included(0)) denotes 1..1 which is valid when n >= 1: drop it
+    if n >= 1 {
+        v.pop();
+    }
+    v
+}
+
+/// All next/next_back choice strings of length <= `r` (+ `extra` steps beyond exhaustion on the longest).
+pub fn choice_strings(r: usize, extra: usize, all: bool) -> Vec<Vec<bool>> {
+    let mut v: Vec<Vec<bool>> = vec![vec![]];
+    if all && r <= 6 {
+        for len in 1..=r {
+            for bits in 0..(1u32 << len) {
+                v.push((0..len).map(|i| bits >> i & 1 == 1).collect());
+            }
+        }
+    } else {
+        for len in 1..=r {
+            v.push(vec![false; len]);
+            v.push(vec![true; len]);
+            v.push((0..len).map(|i| i % 2 == 0).collect());
+            v.push((0..len).map(|i| i % 2 == 1).collect());
+        }
+        v.sort();
+        v.dedup();
+    }
+    if extra > 0 {
+        let mut a = vec![false; r];
+        let mut b = vec![true; r];
+        let mut c: Vec<bool> = (0..r).map(|i| i % 2 == 0).collect();
+        for k in 0..extra {
+            a.push(k % 2 == 0);
+            b.push(k % 2 == 1);
+            c.push(k % 2 == 0);
+        }
+        v.push(a);
+        v.push(b);
+        v.push(c);
+    }
+    v
+}
+
+fn to_steps(bits: &[bool], sinks: &[Sink]) -> Vec<Step> {
+    bits.iter().enumerate().map(|(i, b)| Step { back: *b, sink: sinks[i % sinks.len()] }).collect()
+}
+
+pub fn range_ops(case: &mut Case, n: usize, full: bool) -> Vec<Vec<Op>> {
+    let mut ops: Vec<Op> = Vec::new();
+    let cl = case.cfg.cloneable;
+    let fixed = case.cfg.fixed_cap;
+    let k_max = if full { 5 } else { 3 };
+    let big = n > 8;
+    let ranges: Vec<(usize, usize)> = if big {
+        vec![(0, 0), (0, 1), (0, n), (1, n - 1), (n / 2, n / 2 + 2), (n - 1, n), (n, n), (2, 3)]
+    } else {
+        let mut r = Vec::new();
+        for a in 0..=n {
+            for b in a..=n {
+                r.push((a, b));
+            }
+        }
+        r
+    };
+    let sink_sets: Vec<Vec<Sink>> = vec![
+        vec![Sink::DROP],
+        vec![Sink::DOWNCAST],
+        vec![Sink::new(Pre::None, Fin::Push(OTHER)), Sink::DROP],
+        vec![Sink::new(Pre::Mutate(case.fresh_id()), Fin::Downcast), Sink::new(Pre::Inspect, Fin::Ref)],
+    ];
+    for (a, b) in &ranges {
+        let (a, b) = (*a, *b);
+        let r = b - a;
+        let canon = (Bound::Included(a), Bound::Excluded(b));
+        // drain: every choice string on the canonical form, erased and typed
+        for bits in choice_strings(r.min(6), 3, !big) {
+            for (si, ss) in sink_sets.iter().enumerate() {
+                if si > 0 && (bits.is_empty() || (bits.len() != r && !full)) {
+                    continue;
+                }
+                if fixed.is_some() && si == 2 {
+                    continue;
+                }
+                for typed in [false, true] {
+                    if typed && si == 3 {
+                        continue;
+                    }
+                    ops.push(Op::Drain { v: 0, lo: canon.0, hi: canon.1, typed, script: to_steps(&bits, ss), end: End::Drop });
+                }
+            }
+        }
+        // every other RangeBounds form denoting the same range
+        for (lo, hi) in bound_forms(a, b, n) {
+            if (lo, hi) == canon {
+                continue;
+            }
+            for typed in [false, true] {
+                ops.push(Op::Drain { v: 0, lo, hi, typed, script: vec![], end: End::Drop });
+                ops.push(Op::Drain { v: 0, lo, hi, typed, script: to_steps(&vec![false; r.min(6)], &[Sink::DOWNCAST]), end: End::Drop });
+                ops.push(Op::Splice { v: 0, lo, hi, typed, repl: Repl::Wrappers(vec![case.fresh_id()]), script: vec![Step { back: true, sink: Sink::DROP }], end: End::Drop });
+            }
+        }
+        // splice: replacement lengths x kinds x a few consumption patterns
+        let scripts: Vec<Vec<bool>> = {
+            let mut s = vec![vec![], vec![false; r.min(6)], vec![true; r.min(6)]];
+            if r >= 2 {
+                s.push(vec![false]);
+                s.push(vec![true]);
+                s.push((0..r.min(6)).map(|i| i % 2 == 0).collect());
+            }
+            s.push(vec![true; r.min(6) + 2]);
+            s
+        };
+        for k in 0..=k_max {
+            if let Some(c) = fixed {
+                // also one past capacity
+                if n - r + k > c + 1 {
+                    continue;
+                }
+            }
+            for bits in &scripts {
+                let steps = to_steps(bits, &[Sink::DROP, Sink::DOWNCAST]);
+                let ids = |case: &mut Case| (0..k).map(|_| case.fresh_id()).collect::<Vec<_>>();
+                ops.push(Op::Splice { v: 0, lo: canon.0, hi: canon.1, typed: false, repl: Repl::Wrappers(ids(case)), script: steps.clone(), end: End::Drop });
+                ops.push(Op::Splice { v: 0, lo: canon.0, hi: canon.1, typed: true, repl: Repl::Wrappers(ids(case)), script: steps.clone(), end: End::Drop });
+                ops.push(Op::Splice { v: 0, lo: canon.0, hi: canon.1, typed: false, repl: Repl::Raws(ids(case)), script: steps.clone(), end: End::Drop });
+                if k <= OTHER_LEN {
+                    ops.push(Op::Splice { v: 0, lo: canon.0, hi: canon.1, typed: false, repl: Repl::DrainOf(OTHER, 0, k), script: steps.clone(), end: End::Drop });
+                    if k >= 1 && bits.is_empty() {
+                        ops.push(Op::Splice { v: 0, lo: canon.0, hi: canon.1, typed: false, repl: Repl::DrainOf(OTHER, OTHER_LEN - k, OTHER_LEN), script: steps.clone(), end: End::Drop });
+                    }
+                }
+                if cl {
+                    let js: Vec<usize> = (0..k).map(|i| (i * 2) % OTHER_LEN).collect();
+                    ops.push(Op::Splice { v: 0, lo: canon.0, hi: canon.1, typed: false, repl: Repl::LazyRefs(OTHER, js), script: steps.clone(), end: End::Drop });
+                }
+            }
+        }
+    }
+    for (lo, hi) in invalid_ranges(n) {
+        for typed in [false, true] {
+            ops.push(Op::Drain { v: 0, lo, hi, typed, script: vec![], end: End::Drop });
+            ops.push(Op::Splice { v: 0, lo, hi, typed, repl: Repl::Wrappers(vec![case.fresh_id(), case.fresh_id()]), script: vec![], end: End::Drop });
+        }
+        ops.push(Op::Splice { v: 0, lo, hi, typed: false, repl: Repl::DrainOf(OTHER, 0, 2), script: vec![], end: End::Drop });
+    }
+    singles(ops)
+}
+
+// ---------------------------------------------------------------------------------------------
+// iterators (C14)
+
+pub fn iter_ops(_case: &mut Case, n: usize, _full: bool) -> Vec<Vec<Op>> {
+    let mut ops = Vec::new();
+    let hows = [
+        IterHow::Iter, IterHow::IterMut, IterHow::IntoIterRef, IterHow::IntoIterMut, IterHow::TIter, IterHow::TIterMut,
+        IterHow::TIntoIterRef, IterHow::TIntoIterMut,
+    ];
+    for how in hows {
+        for bits in choice_strings(n.min(7), 6, n <= 7) {
+            ops.push(Op::IterScript { v: 0, how, script: bits.clone(), clone_at: None });
+            if matches!(how, IterHow::Iter | IterHow::IntoIterRef | IterHow::TIter) && !bits.is_empty() {
+                for at in [0, bits.len() / 2, bits.len() - 1] {
+                    ops.push(Op::IterScript { v: 0, how, script: bits.clone(), clone_at: Some(at) });
+                }
+            }
+        }
+    }
+    singles(ops)
+}
+
+// ---------------------------------------------------------------------------------------------
+// clone (C08)
+
+pub fn clone_ops(case: &mut Case, n: usize, full: bool) -> Vec<Vec<Op>> {
+    let mut seqs: Vec<Vec<Op>> = Vec::new();
+    seqs.push(vec![Op::CloneVec { v: 0, into: SPARE }]);
+    seqs.push(vec![Op::CloneEmpty { v: 0, into: SPARE }]);
+    seqs.push(vec![Op::CloneVec { v: 0, into: OTHER }]);
+    for t in [Target::Heap, Target::Guard, Target::Stack, Target::StackN] {
+        seqs.push(vec![Op::CloneEmptyIn { v: 0, target: t }]);
+    }
+    // then every single element-wise operation on the original and on the clone
+    let follow = elem_ops(case, n, false);
+    for op in follow {
+        if !full && matches!(op, Op::Get { .. } | Op::Iter { .. }) {
+            continue;
+        }
+        seqs.push(vec![Op::CloneVec { v: 0, into: SPARE }, op.clone()]);
+        if let Some(op2) = retarget(&op, SPARE) {
+            seqs.push(vec![Op::CloneVec { v: 0, into: SPARE }, op2]);
+        }
+    }
+    // the empty clone accepts, destroys and clones the same values
+    seqs.push(vec![
+        Op::CloneEmpty { v: 0, into: SPARE },
+        Op::Push { v: SPARE, src: Src::Wrapper(case.fresh_id()) },
+        Op::Push { v: SPARE, src: Src::Raw(case.fresh_id()) },
+        Op::Insert { v: SPARE, at: 0, src: Src::Remove(OTHER, 0) },
+        Op::CloneVec { v: SPARE, into: OTHER },
+        Op::Pop { v: SPARE, sink: Sink::DROP },
+        Op::Clear { v: SPARE },
+    ]);
+    seqs
+}
+
+/// The same operation aimed at vector `to` instead of vector 0 (None when it would alias a source).
+pub fn retarget(op: &Op, to: usize) -> Option<Op> {
+    let mut o = op.clone();
+    let uses = |s: &Src| match s {
+        Src::Pop(w) | Src::Remove(w, _) | Src::SwapRemove(w, _) | Src::Drained(w, _) | Src::Lazy(_, w, _, _) => *w == to,
+        _ => false,
+    };
+    let sink_uses = |s: &Sink| matches!(s.fin, Fin::Push(w) | Fin::Insert(w, _) if w == to);
+    match &mut o {
+        Op::Push { v, src } | Op::Insert { v, src, .. } => {
+            if uses(src) {
+                return None;
+            }
+            *v = to
+        }
+        Op::Pop { v, sink } | Op::Remove { v, sink, .. } | Op::SwapRemove { v, sink, .. } => {
+            if sink_uses(sink) {
+                return None;
+            }
+            *v = to
+        }
+        Op::Clear { v } | Op::TPush { v, .. } | Op::TInsert { v, .. } | Op::TPop { v } | Op::TRemove { v, .. } | Op::TSwapRemove { v, .. }
+        | Op::TClear { v } | Op::Get { v, .. } | Op::Iter { v, .. } => *v = to,
+        _ => return None,
+    }
+    Some(o)
+}
+
+// ---------------------------------------------------------------------------------------------
+// lazy clones (C09)
+
+pub fn lazy_ops(case: &mut Case, n: usize, full: bool) -> Vec<Vec<Op>> {
+    let mut ops = Vec::new();
+    if !case.cfg.cloneable {
+        return vec![];
+    }
+    let all_uses = [LazyUse::Push(0), LazyUse::Insert(0, 0), LazyUse::Insert(0, n), LazyUse::Splice(0, n / 2), LazyUse::Downcast, LazyUse::DropUnused, LazyUse::Push(SPARE)];
+    let room = case.cfg.fixed_cap.map_or(usize::MAX, |c| c.saturating_sub(n));
+    for kind in ALL_LAZY {
+        for j in [0usize, OTHER_LEN - 1] {
+            for depth in 1..=3u8 {
+                // 0..=3 consumptions
+                let mut use_lists: Vec<Vec<LazyUse>> = vec![vec![]];
+                for u in all_uses {
+                    use_lists.push(vec![u]);
+                }
+                for (i, u) in all_uses.iter().enumerate() {
+                    use_lists.push(vec![*u, all_uses[(i + 1) % all_uses.len()]]);
+                    if full || i % 2 == 0 {
+                        use_lists.push(vec![*u, all_uses[(i + 3) % all_uses.len()], all_uses[(i + 4) % all_uses.len()]]);
+                    }
+                }
+                for ul in use_lists {
+                    let into0 = ul.iter().filter(|u| matches!(u, LazyUse::Push(0) | LazyUse::Insert(0, _) | LazyUse::Splice(0, _))).count();
+                    if into0 > room {
+                        continue;
+                    }
+                    // positions shift as earlier uses insert: keep them valid
+                    let mut len0 = n;
+                    let mut ok = true;
+                    for u in &ul {
+                        match u {
+                            LazyUse::Insert(0, k) | LazyUse::Splice(0, k) => {
+                                if *k > len0 {
+                                    ok = false;
+                                }
+                                len0 += 1;
+                            }
+                            LazyUse::Push(0) => len0 += 1,
+                            _ => {}
+                        }
+                    }
+                    if !ok {
+                        continue;
+                    }
+                    ops.push(Op::LazyMulti(LazyMulti { kind, w: OTHER, j, depth, uses: ul }));
+                }
+            }
+        }
+    }
+    singles(ops)
+}
+
+// ---------------------------------------------------------------------------------------------
+// capacity management (C10)
+
+pub fn cap_ops(case: &mut Case, n: usize, _full: bool) -> Vec<Vec<Op>> {
+    let mut ops = Vec::new();
+    if !case.cfg.resizable {
+        return vec![];
+    }
+    let m = usize::MAX;
+    let mut args: Vec<usize> = (0..=n + 5).collect();
+    args.extend_from_slice(&[m, m - 1, m - 2, m - 3, m - n, (m - n).wrapping_add(1), (m - n).saturating_sub(1)]);
+    for typed in [false, true] {
+        for a in &args {
+            // arguments whose byte size is valid but enormous are not probed (an honest allocation failure aborts)
+            let huge = a.checked_add(n).map_or(false, |t| t > (1 << 20));
+            if !huge {
+                ops.push(Op::Reserve { v: 0, n: *a, exact: false, typed });
+                ops.push(Op::Reserve { v: 0, n: *a, exact: true, typed });
+            }
+            if *a <= n + 5 || *a >= m - 3 {
+                ops.push(Op::ShrinkTo { v: 0, n: *a, typed });
+            }
+        }
+        ops.push(Op::ShrinkToFit { v: 0, typed });
+    }
+    let mut seqs = singles(ops);
+    // a capacity call followed by element operations that rely on the new capacity
+    seqs.push(vec![Op::Reserve { v: 0, n: 2, exact: true, typed: false }, Op::TPush { v: 0, id: case.fresh_id() }, Op::Push { v: 0, src: Src::Raw(case.fresh_id()) }, Op::ShrinkToFit { v: 0, typed: false }]);
+    seqs.push(vec![Op::ShrinkToFit { v: 0, typed: false }, Op::Insert { v: 0, at: 0, src: Src::Raw(case.fresh_id()) }, Op::ShrinkTo { v: 0, n: 1, typed: true }]);
+    seqs.push(vec![Op::ShrinkTo { v: 0, n: 0, typed: false }, Op::Clear { v: 0 }, Op::ShrinkToFit { v: 0, typed: false }, Op::TPush { v: 0, id: case.fresh_id() }]);
+    seqs
 }
